@@ -86,6 +86,7 @@ class Client(kernel.Actor):
 
     async def ws_close(self, code=1000):
         self.closed = code
+        self.closed_mono = self.sim.clock.mono
         self.transcript.append((self.sim.stamp(), "__CLOSE__%s" % code))
 
     # -- actor ------------------------------------------------------------------------------
@@ -119,6 +120,7 @@ class Client(kernel.Actor):
         if it[0] == "send":
             self.frames.append({"i": self.pos - 1, "text": it[1], "t_deliver": self.sim.stamp(),
                                 "t_done": None, "wall_deliver": self.sim.clock.wall(), "wall_done": None})
+            self.last_deliver_mono = self.sim.clock.mono
             self.recv_fut.set_result(it[1])
         elif it[0] == "disconnect":
             self.disconnect()
@@ -142,6 +144,43 @@ class Client(kernel.Actor):
             self.recv_fut.set_exception(falcon.WebSocketDisconnected())
 
 
+class _StubReq:
+    """what NostrAPI.on_websocket reads from the falcon request"""
+
+    def __init__(self, client):
+        self.remote_addr = client.addr
+        self._origin = client.origin or None
+
+    def get_header(self, name, default=None):
+        if name.lower() == "origin":
+            return self._origin
+        return default
+
+
+class _StubWS:
+    """falcon.asgi.WebSocket stand-in backed by a Client actor"""
+
+    def __init__(self, client):
+        self.c = client
+        self.accepted = False
+
+    async def accept(self, *a, **k):
+        import falcon
+        if self.c.disconnected:
+            raise falcon.WebSocketDisconnected()
+        self.accepted = True
+        self.c.accepted = True
+
+    async def close(self, code=1000):
+        await self.c.ws_close(code=code)
+
+    async def send_text(self, text):
+        await self.c.ws_send(text)
+
+    async def receive_text(self):
+        return await self.c.ws_recv()
+
+
 class RelayWorld:
     def __init__(self, sim, backend, clients, cfg=None, storage_opts=None, message_timeout=1800,
                  rate_limits=None, gc_interval=None, quiet_horizon=0.0, preload=None, p_buffered=0.0):
@@ -157,6 +196,7 @@ class RelayWorld:
         self.quiet_horizon = quiet_horizon
         self.preload = preload or []
         self.p_buffered = p_buffered
+        self.via_api = False
         self.log = logging.getLogger("nostr_relay.sim")
         self.registry_hook = None
         self.final = {}
@@ -249,8 +289,13 @@ class RelayWorld:
         opts = {"rate_limits": self.rate_limits} if self.rate_limits else {}
         limiter = get_rate_limiter(opts)
         self.limiter = limiter
+        api = web.NostrAPI(st, rate_limiter=limiter) if self.via_api else None
         for c in self.clients:
             sim.add_actor(c)
+            if api is not None:
+                # the accept path: origin blacklist, ACCEPT rate limit, ws.accept(), then start_client
+                c.task = asyncio.ensure_future(api.on_websocket(_StubReq(c), _StubWS(c)))
+                continue
             c.task = asyncio.ensure_future(web.start_client(
                 st, c.ws_send, c.ws_recv, c.ws_close, self.log,
                 message_timeout=self.message_timeout, rate_limiter=limiter,
